@@ -32,7 +32,8 @@ EXPECTED_PROBES = ['client_first', 'server_first', 'crossing',
                    'message_between_closes', 'empty_close_payload',
                    'after_bad_close_on_earlier_connection', 'close_write_failed',
                    'close_timeout_disabled', 'two_connections_interleaved',
-                   'old_generator_released_mid_handshake']
+                   'old_generator_released_mid_handshake',
+                   'reset_after_close_handshake']
 
 # every code a peer may send: the RFC 6455 ones, the two registered later
 # (1012 service restart, 1013 try again later), the 3000 and 4000 ranges
@@ -86,6 +87,9 @@ def make_case(family, i, rng, tier):
     case = {'kind': kind, 'pre': pre, 'sclose': _sclose(rng),
             'close_timeout': rng.choice([30, 30, 0, None, 0.0]),
             'reply_after': rng.choice([0, 0, 700000, 6000000]),
+            # how the server lets go after the handshake: FIN, or a reset
+            # (shutdown() on the client's socket then fails with ENOTCONN)
+            'end': rng.choice(['eof', 'eof', 'rst']),
             'send_everywhere': rng.random() < 0.6,
             'eof_after': rng.random() < 0.7}
     enc = ST.encode_items(pre)
@@ -181,7 +185,12 @@ def build(case):
         enc = ST.encode_items((case.get('pre') or []) + [sc_item])
         tail = [{'op': 'await_close', 'timeout': 20000000}]
         expected = enc.expected
-    if case.get('eof_after', True) or kind == 'server_first':
+    if kind == 'client_first' and case.get('eof_after', True) and \
+            case.get('end') == 'rst':
+        # the server's Close and a reset arrive together
+        tail.append(S.rst(after=0))
+        case_rst = True
+    elif case.get('eof_after', True) or kind == 'server_first':
         tail.append(S.eof(after=1000))
     else:
         tail.append({'op': 'silence'})
@@ -440,6 +449,14 @@ def _judge(res, case, sc, expected, tr):
                         '%s at %s raised %s' % (c.op, evname, c.exc))
     if not st.closed:
         res.bad('C08/%s/socket_left_open' % kind, 'events %s' % names[-4:])
+    elif st.closed_by_gc:
+        # dropped without close(): only the garbage collector released it
+        res.bad('C08/%s/socket_not_closed_by_library' % kind,
+                'events %s (shutdown failed: %s)' % (
+                    names[-4:], bool(tr.world.stats.get(
+                        'fault:shutdown_enotconn'))))
+    if tr.world.stats.get('fault:shutdown_enotconn'):
+        res.stats['probe:reset_after_close_handshake'] += 1
     for k, m in oracle.trace_sanity(tr):
         res.xobs.append('C07/' + k)
         if k in ('hang', 'escaped'):
